@@ -87,6 +87,24 @@ impl OwnedEntry {
     }
 }
 
+/// Makes sure that a directory is known and listed (once) in its parent,
+/// which is registered the same way up to the root: archives do not always
+/// have a member for every directory, and members can come in any order.
+fn register_dir(dirs: &mut HashMap<SharedString, Vec<OwnedEntry>>, id: &SharedString) {
+    if dirs.contains_key(id) {
+        return;
+    }
+    dirs.insert(id.clone(), Vec::new());
+
+    if let Some(parent_id) = DirEntry::Directory(id).parent_id() {
+        let parent_id = SharedString::from(parent_id);
+        register_dir(dirs, &parent_id);
+        if let Some(parent) = dirs.get_mut(&parent_id) {
+            parent.push(OwnedEntry::Dir(id.clone()));
+        }
+    }
+}
+
 /// Register a file of an archive in maps.
 fn register_file(
     file: ZipFile,
@@ -129,14 +147,15 @@ fn register_file(
             let ext = extension_of(path)?.into();
             let desc = FileDesc(id, ext);
             files.insert(desc.clone(), index);
-            OwnedEntry::File(desc)
+            Some(OwnedEntry::File(desc))
         } else {
-            if !dirs.contains_key(&id) {
-                dirs.insert(id.clone(), Vec::new());
-            }
-            OwnedEntry::Dir(id)
+            register_dir(dirs, &id);
+            None
         };
-        dirs.entry(parent_id).or_default().push(entry);
+        if let Some(entry) = entry {
+            register_dir(dirs, &parent_id);
+            dirs.entry(parent_id).or_default().push(entry);
+        }
 
         Some(())
     })()
